@@ -139,7 +139,7 @@ func zzSvc(name, ip string) (*api.Service, *api.Endpoints) {
 
 var zzHosts = []string{"h1.local", "h2.local"}
 var zzSvcs = []string{"s1", "s2"}
-var zzSecrets = []string{"t1", "t2", "missing"}
+var zzSecrets = []string{"t1", "missing", "t2"}
 
 // zzIngress builds an Ingress from solver-chosen parts: 0..1 rule (host, service) and 0..1 tls
 // block (host, secret).
@@ -174,7 +174,7 @@ func zzIngress(name string, created int64, prefix string) *networking.Ingress {
 	if nd.Param("TLS", 1) == 1 && nd.Bool(prefix+".tls") {
 		ing.Spec.TLS = []networking.IngressTLS{{
 			Hosts:      []string{zzHosts[nd.Choice(prefix+".tlshost", len(zzHosts))]},
-			SecretName: zzSecrets[nd.Choice(prefix+".secret", len(zzSecrets))],
+			SecretName: zzSecrets[nd.Choice(prefix+".secret", nd.Param("SECRETS", len(zzSecrets)))],
 		}}
 	}
 	return ing
